@@ -598,12 +598,12 @@ package proxy
 // Cleanup removes only its own entries: a channel is unregistered only while it is still the registered one.
 //@ contract (*shardManagerImpl).RemoveRemoteSendChan
 //@   shape sig=(sm *shardManagerImpl)(shardID history.ClusterShardID,expectedChan chan RoutedMessage)();loops=;lits=0;fv=
-//@   props C08 C20:lock
+//@   props C08 C20:lock+guard
 //@   requires sm.remoteSendChannels != nil
 //@   deletepre remoteSendChannels: @only_own_channel: $key == shardID && $present && sm.remoteSendChannels[$key] == expectedChan
 //@ contract (*shardManagerImpl).RemoveLocalAckChan
 //@   shape sig=(sm *shardManagerImpl)(shardID history.ClusterShardID,expectedChan chan RoutedAck)();loops=;lits=0;fv=
-//@   props C08 C20:lock
+//@   props C08 C20:lock+guard
 //@   requires sm.localAckChannels != nil
 //@   deletepre localAckChannels: @only_own_channel: $key == shardID && $present && sm.localAckChannels[$key] == expectedChan
 
@@ -611,7 +611,7 @@ package proxy
 // (every delete in the dynamic extent of UnregisterShard).
 //@ contract (*shardManagerImpl).UnregisterShard
 //@   shape sig=(sm *shardManagerImpl)(clientShardID history.ClusterShardID,expectedRegisteredAt time.Time)();loops=;lits=1;fv=sm.onLocalShardChange
-//@   props C08 C09 C20:lock
+//@   props C08 C09 C20:lock+guard
 //@   assigns contents(sm.localShards)
 //@   requires sm.localShards != nil
 //@   deletepre localShards: @only_own_registration: $present && sm.localShards[$key].Created == expectedRegisteredAt && $key == ClusterShardIDtoShortString(clientShardID)
@@ -679,36 +679,64 @@ package proxy
 //@   assigns req.sentOn
 //@ contract (*intraProxyManager).sendReplicationMessages
 //@   shape sig=(m *intraProxyManager)(ctx context.Context,peerNodeName string,targetShard history.ClusterShardID,sourceShard history.ClusterShardID,resp *adminservice.StreamWorkflowReplicationMessagesResponse)( error);loops=for0;lits=0;fv=
-//@   props C09 C20:lock
+//@   props C09 C20:lock+guard
 //@   requires goodResp(resp)
 //@   ensures @nil_iff_sent_once: (result == nil ==> resp.sentOn == old(resp.sentOn) + 1) && (result != nil ==> resp.sentOn == old(resp.sentOn))
 //@   assigns *, resp.sentOn
 //@   loop 1 invariant resp.sentOn == old(resp.sentOn) && goodResp(resp) && backoff >= 0 && backoff <= 400000000
 //@ contract (*intraProxyManager).sendAck
 //@   shape sig=(m *intraProxyManager)(ctx context.Context,peerNodeName string,clientShard history.ClusterShardID,serverShard history.ClusterShardID,req *adminservice.StreamWorkflowReplicationMessagesRequest)( error);loops=;lits=0;fv=
-//@   props C09 C20:lock
+//@   props C09 C20:lock+guard
 //@   requires req != nil
 //@   ensures @nil_iff_sent_once: (result == nil ==> req.sentOn == old(req.sentOn) + 1) && (result != nil ==> req.sentOn == old(req.sentOn))
 //@   assigns *, req.sentOn
 //@ extern quiet (*shardManagerImpl).getShardOwner
 //@ extern quiet (*shardManagerImpl).GetProxyAddress
 //@ extern quiet (*shardManagerImpl).GetNodeName
-//@ extern (*shardManagerImpl).GetRemoteSendChan(sm, shardID)
-//@   trusted registry read under its lock; the channel may belong to an incarnation that has already closed it
-//@   assigns nothing
-//@ extern (*shardManagerImpl).GetLocalAckChan(sm, shardID)
-//@   assigns nothing
+// Registry reads (were assumed externs): the answer is what the registry holds at the moment of the read (under the
+// registry's lock - guard discipline), "absent" is reported exactly when the key is absent, and the function itself
+// writes nothing: the frame names the registry only because the lock-havoc model lets OTHER incarnations change it while
+// the lock is being acquired; the function's own stores and deletes are excluded by the `read_only` emit clauses.
+// The channel may still belong to an incarnation that has already closed it (callers carry chan:send-open obligations).
+//@ contract (*shardManagerImpl).GetRemoteSendChan
+//@   shape sig=(sm *shardManagerImpl)(shardID history.ClusterShardID)( chan RoutedMessage, bool);loops=;lits=0;fv=
+//@   props C08 C02 C04 C20:lock+guard
+//@   ensures @registered_or_absent: (result1 ==> (shardID in sm.remoteSendChannels) && result0 == sm.remoteSendChannels[shardID]) && (!result1 ==> !(shardID in sm.remoteSendChannels))
+//@   assigns contents(sm.remoteSendChannels)
+//@   storepre remoteSendChannels: @read_only: false
+//@   deletepre remoteSendChannels: @read_only: false
+//@ contract (*shardManagerImpl).GetLocalAckChan
+//@   shape sig=(sm *shardManagerImpl)(shardID history.ClusterShardID)( chan RoutedAck, bool);loops=;lits=0;fv=
+//@   props C08 C01 C04 C20:lock+guard
+//@   ensures @registered_or_absent: (result1 ==> (shardID in sm.localAckChannels) && result0 == sm.localAckChannels[shardID]) && (!result1 ==> !(shardID in sm.localAckChannels))
+//@   assigns contents(sm.localAckChannels)
+//@   storepre localAckChannels: @read_only: false
+//@   deletepre localAckChannels: @read_only: false
+//@ contract (*shardManagerImpl).GetActiveReceiver
+//@   shape sig=(sm *shardManagerImpl)(sourceShardID history.ClusterShardID)( ActiveReceiver, bool);loops=;lits=0;fv=
+//@   props C08 C20:lock+guard
+//@   ensures @registered_or_absent: (result1 ==> (sourceShardID in sm.activeReceivers) && result0 == sm.activeReceivers[sourceShardID]) && (!result1 ==> !(sourceShardID in sm.activeReceivers))
+//@   assigns contents(sm.activeReceivers)
+//@   storepre activeReceivers: @read_only: false
+//@   deletepre activeReceivers: @read_only: false
+//@ contract (*shardManagerImpl).GetLocalReceiverCancelFunc
+//@   shape sig=(sm *shardManagerImpl)(shardID history.ClusterShardID)( context.CancelFunc, bool);loops=;lits=0;fv=
+//@   props C08 C20:lock+guard
+//@   ensures @registered_or_absent: (result1 ==> (shardID in sm.localReceiverCancelFuncs)) && (!result1 ==> !(shardID in sm.localReceiverCancelFuncs))
+//@   assigns contents(sm.localReceiverCancelFuncs)
+//@   storepre localReceiverCancelFuncs: @read_only: false
+//@   deletepre localReceiverCancelFuncs: @read_only: false
 
 //@ contract (*shardManagerImpl).DeliverMessagesToShardOwner
 //@   shape sig=(sm *shardManagerImpl)(targetShard history.ClusterShardID,routedMsg *RoutedMessage,shutdownChan channel.ShutdownOnce,logger log.Logger)( bool);loops=;lits=2;fv=
-//@   props C09 C08 C04 C02 C20:lock
+//@   props C09 C08 C04 C02 C20:lock+guard
 //@   requires routedMsg != nil && goodMsg(deref(routedMsg))
 //@   ensures @exactly_once_iff_true: result <==> ($sends + (old(routedMsg.Resp).sentOn - old(routedMsg.Resp.sentOn)) == 1)
 //@   ensures @never_twice: $sends + (old(routedMsg.Resp).sentOn - old(routedMsg.Resp.sentOn)) <= 1
 //@   callpre sendReplicationMessages: @local_first: $sends == 0
 //@ contract (*shardManagerImpl).DeliverAckToShardOwner
 //@   shape sig=(sm *shardManagerImpl)(sourceShard history.ClusterShardID,routedAck *RoutedAck,shutdownChan channel.ShutdownOnce,logger log.Logger,ack int64,allowForward bool)( bool);loops=;lits=2;fv=
-//@   props C09 C08 C04 C01 C20:lock
+//@   props C09 C08 C04 C01 C20:lock+guard
 //@   requires routedAck != nil && routedAck.Req != nil
 // constructor invariant: acknowledgements are routed only in routing mode, where a memberlist configuration comes with an intra-proxy manager
 //@   requires sm.memberlistConfig != nil ==> sm.intraMgr != nil
@@ -864,17 +892,17 @@ package proxy
 // ---------------------------------------------------------------------------------------------
 //@ contract (*shardManagerImpl).SetRemoteSendChan
 //@   shape sig=(sm *shardManagerImpl)(shardID history.ClusterShardID,sendChan chan RoutedMessage)();loops=;lits=0;fv=
-//@   props C08 C20:lock
+//@   props C08 C20:lock+guard
 //@   requires sm.remoteSendChannels != nil
 //@   ensures @newest_registered: shardID in sm.remoteSendChannels && sm.remoteSendChannels[shardID] == sendChan
 //@ contract (*shardManagerImpl).SetLocalAckChan
 //@   shape sig=(sm *shardManagerImpl)(shardID history.ClusterShardID,ackChan chan RoutedAck)();loops=;lits=0;fv=
-//@   props C08 C20:lock
+//@   props C08 C20:lock+guard
 //@   requires sm.localAckChannels != nil
 //@   ensures @newest_registered: shardID in sm.localAckChannels && sm.localAckChannels[shardID] == ackChan
 //@ contract (*shardManagerImpl).RegisterActiveReceiver
 //@   shape sig=(sm *shardManagerImpl)(sourceShardID history.ClusterShardID,receiver ActiveReceiver)();loops=;lits=0;fv=
-//@   props C08 C20:lock
+//@   props C08 C20:lock+guard
 //@   requires sm.activeReceivers != nil
 //@   ensures @newest_registered: sourceShardID in sm.activeReceivers && sm.activeReceivers[sourceShardID] == receiver
 // The registration time doubles as the incarnation token that UnregisterShard compares, and as the claim time that
@@ -887,7 +915,7 @@ package proxy
 //@   assigns sm.lastNow
 //@ contract (*shardManagerImpl).addLocalShard
 //@   shape sig=(sm *shardManagerImpl)(shard history.ClusterShardID)( time.Time);loops=;lits=0;fv=
-//@   props C08 C09 C20:lock
+//@   props C08 C09 C20:lock+guard
 //@   requires sm.localShards != nil
 //@   ensures @token_is_this_clock_reading: result == sm.lastNow
 //@   ensures @claimed_now: ClusterShardIDtoShortString(shard) in sm.localShards && sm.localShards[ClusterShardIDtoShortString(shard)].Created == result && sm.localShards[ClusterShardIDtoShortString(shard)].ID == shard
@@ -895,7 +923,7 @@ package proxy
 // receiver incarnation is registered for the shard.
 //@ contract (*shardManagerImpl).TerminatePreviousLocalReceiver
 //@   shape sig=(sm *shardManagerImpl)(shardID history.ClusterShardID,logger log.Logger)();loops=;lits=0;fv=prevCancelFunc
-//@   props C08 C04 C20:lock
+//@   props C08 C04 C20:lock+guard
 //@   requires sm.localReceiverCancelFuncs != nil && sm.localAckChannels != nil && logger != nil
 //@   ensures @predecessor_evicted: !(shardID in sm.localReceiverCancelFuncs)
 
@@ -1030,11 +1058,11 @@ package proxy
 //@   lockinv forall p string :: { p in self.peers } p in self.peers ==> self.peers[p] != nil
 //@ contract (*intraProxyManager).UnregisterSender
 //@   shape sig=(m *intraProxyManager)(peerNodeName string,targetShard history.ClusterShardID,sourceShard history.ClusterShardID,sender *intraProxyStreamSender)();loops=;lits=0;fv=
-//@   props C08 C20:lock
+//@   props C08 C20:lock+guard
 //@   deletepre senders: @only_own_sender: !$present || $map[$key] == sender
 //@ contract (*intraProxyManager).RegisterSender
 //@   shape sig=(m *intraProxyManager)(peerNodeName string,targetShard history.ClusterShardID,sourceShard history.ClusterShardID,sender *intraProxyStreamSender)();loops=;lits=0;fv=
-//@   props C08 C20:lock
+//@   props C08 C20:lock+guard
 //@   requires m.peers != nil && m.loggers != nil
 //@   ensures @newest_registered: targetShard.ClusterID != sourceShard.ClusterID ==> peerNodeName in m.peers && m.peers[peerNodeName] != nil
 //@ extern (ShardManager).GetIntraProxyManager@(*intraProxyStreamSender).Run(sm)
@@ -1067,18 +1095,18 @@ package proxy
 //@ guards shardManagerImpl.localReceiverCancelFuncsMu: *localReceiverCancelOwner
 //@ contract (*shardManagerImpl).UnregisterActiveReceiver
 //@   shape sig=(sm *shardManagerImpl)(sourceShardID history.ClusterShardID,receiver ActiveReceiver)();loops=;lits=0;fv=
-//@   props C08 C20:lock
+//@   props C08 C20:lock+guard
 //@   deletepre activeReceivers: @only_own_entry: $key == sourceShardID && $present && $map[$key] == receiver
 //@ contract (*shardManagerImpl).RemoveLocalReceiverCancelFunc
 //@   shape sig=(sm *shardManagerImpl)(shardID history.ClusterShardID,owner ActiveReceiver)();loops=;lits=0;fv=
-//@   props C08 C20:lock
+//@   props C08 C20:lock+guard
 // (the two maps have different Go types and therefore cannot be the same object; the untyped heap model needs to be told)
 //@   requires sm.localReceiverCancelFuncs != sm.localReceiverCancelOwner
 //@   deletepre localReceiverCancelFuncs: @only_own_entry: $key == shardID && shardID in sm.localReceiverCancelOwner && sm.localReceiverCancelOwner[shardID] == owner
 //@   deletepre localReceiverCancelOwner: @only_own_entry: $key == shardID && $present && $map[$key] == owner
 //@ contract (*shardManagerImpl).SetLocalReceiverCancelFunc
 //@   shape sig=(sm *shardManagerImpl)(shardID history.ClusterShardID,cancelFunc context.CancelFunc,owner ActiveReceiver)();loops=;lits=0;fv=
-//@   props C08 C20:lock
+//@   props C08 C20:lock+guard
 //@   requires sm.localReceiverCancelFuncs != nil && sm.localReceiverCancelOwner != nil
 //@   ensures @newest_registered: shardID in sm.localReceiverCancelOwner && sm.localReceiverCancelOwner[shardID] == owner && shardID in sm.localReceiverCancelFuncs
 
